@@ -256,12 +256,16 @@ private theorem onLibEvBody_inv (cfg : Cfg) (st : St) (o0 : List Out) (e : LibEv
     simp only [onLibEvBody] at h
     have hc : (H11M.recvError st.lib).client ≠ .idle := recvError_client _
     split at h
-    all_goals
-      simp only [Option.some.injEq, Prod.mk.injEq] at h
+    · simp only [Option.some.injEq, Prod.mk.injEq] at h
       obtain ⟨rfl, _⟩ := h
-      apply inv_of_client
-    · exact libSend_client _ _ (libSend_client _ _ hc)
-    · exact hc
+      exact inv_of_client _ hc
+    · split at h
+      all_goals
+        simp only [Option.some.injEq, Prod.mk.injEq] at h
+        obtain ⟨rfl, _⟩ := h
+        apply inv_of_client
+      · exact libSend_client _ _ (libSend_client _ _ hc)
+      · exact hc
   | request r =>
     simp only [onLibEvBody] at h
     split at h
